@@ -480,6 +480,7 @@ _COMB = {
     'option::Option::<T>::ok_or_else': ('core::option::Option', 'None', 'Err'),
     'option::Option::<T>::map': ('core::option::Option', 'Some', 'Some'),
     'option::Option::<T>::and_then': ('core::option::Option', 'Some', 'same'),
+    'option::Option::<T>::filter': ('core::option::Option', 'Some', 'filter'),
     'result::Result::<T, E>::map_err': ('core::result::Result', 'Err', 'Err'),
     'result::Result::<T, E>::map': ('core::result::Result', 'Ok', 'Ok'),
     'result::Result::<T, E>::and_then': ('core::result::Result', 'Ok', 'same'),
@@ -623,6 +624,31 @@ def inline_direct_closure_calls(fns_by_path, max_rewrites=40):
     return done
 
 
+def devirtualize_fn_pointers(fns_by_path):
+    """a call through a function pointer whose value the same body fixed (`binary_op(Object::add, ..)` spliced in: the pointer is
+    a copy of `Object::add as fn(..)`) is a call of that function: the callee is rewritten to it.  Returns the number rewritten."""
+    n = 0
+    for path, j in fns_by_path.items():
+        for bl in j['blocks']:
+            t = bl['term']
+            if t['k'] != 'call':
+                continue
+            c = t['callee']
+            ind = c.get('indirect')
+            if not ind or c.get('path') != '<fn pointer>':
+                continue
+            r = _trace_operand(j, ind, lambda rv: rv['k'] == 'cast' and 'ReifyFnPointer' in str(rv.get('ck')) and rv['op'].get('k') == 'const' and rv['op'].get('fn'))
+            if r is None:
+                continue
+            target = r[1]['op']['fn']
+            tj = fns_by_path.get(target)
+            t['callee'] = {'path': target, 'generic_args': r[1]['op'].get('fn_args') or '[]', 'local': tj is not None, 'krate': 'nederlang' if tj is not None else None,
+                           'unsafe': bool(tj.get('unsafe')) if tj is not None else False, 'resolved': target, 'resolved_local': tj is not None, 'resolved_kind': 'Item',
+                           'devirtualized': True}
+            n += 1
+    return n
+
+
 def desugar_effect_closures(fns_by_path, max_rewrites=40):
     """returns {caller: [closure paths spliced]}"""
     done = {}
@@ -663,7 +689,7 @@ def desugar_effect_closures(fns_by_path, max_rewrites=40):
             if cp is None or cp not in fns_by_path or cp in bl.get('inl', ()):
                 continue
             cj = originals.setdefault(cp, copy.deepcopy(fns_by_path[cp]))
-            if not _closure_has_effects(cj) or len(cj['blocks']) > 200:
+            if (wrap != 'filter' and not _closure_has_effects(cj)) or len(cj['blocks']) > 200:
                 continue
             o = t['args'][0]
             if o.get('k') not in ('copy', 'move') or o['place']['proj']:
@@ -673,7 +699,7 @@ def desugar_effect_closures(fns_by_path, max_rewrites=40):
             vidx = _VARIANTS[enum].index(on_variant)
             other = _VARIANTS[enum][1 - vidx]
             span = t['span']
-            loff, boff, poff = len(j['locals']), len(j['blocks']) + 3, len(j.get('promoted') or [])
+            loff, boff, poff = len(j['locals']), len(j['blocks']) + (5 if wrap == 'filter' else 3), len(j.get('promoted') or [])
             stack = tuple(bl.get('inl', ())) + (cp,)
 
             def newlocal(ty):
@@ -710,7 +736,7 @@ def desugar_effect_closures(fns_by_path, max_rewrites=40):
                 pass_rv = agg(other, [payload(other)])
             elif wrap == 'Err' and enum.endswith('Option'):      # ok_or_else: Some(x) -> Ok(x)
                 pass_rv = {'k': 'aggregate', 'adt': 'core::result::Result', 'variant': 'Ok', 'fields': [], 'ops': [payload('Some')]}
-            elif wrap == 'Some':
+            elif wrap in ('Some', 'filter'):
                 pass_rv = agg('None', [])
             else:                          # map_err on Ok / map on Err
                 pass_rv = agg(other, [payload(other)])
@@ -722,7 +748,10 @@ def desugar_effect_closures(fns_by_path, max_rewrites=40):
                 call_stmts.append({'k': 'assign', 'place': pl(loff + 1, ty=c1ty), 'rv': {'k': 'ref', 'mut': ' mut ' in c1ty[:24], 'place': pl(cl)}, 'span': span, 'inl_arg': cp})
             else:
                 call_stmts.append({'k': 'assign', 'place': pl(loff + 1, ty=c1ty), 'rv': {'k': 'use', 'op': {'k': 'move', 'place': pl(cl)}}, 'span': span, 'inl_arg': cp})
-            if cj['arg_count'] >= 2:
+            if cj['arg_count'] >= 2 and wrap == 'filter':
+                # the predicate looks at the payload through a shared reference
+                call_stmts.append({'k': 'assign', 'place': pl(loff + 2, ty=cj['locals'][2]['ty']), 'rv': {'k': 'ref', 'mut': False, 'place': payload(on_variant)['place']}, 'span': span, 'inl_arg': cp})
+            elif cj['arg_count'] >= 2:
                 call_stmts.append({'k': 'assign', 'place': pl(loff + 2, ty=cj['locals'][2]['ty']), 'rv': {'k': 'use', 'op': payload(on_variant, cj['locals'][2]['ty'])}, 'span': span, 'inl_arg': cp})
             j['blocks'].append({'i': b_call, 'stmts': call_stmts, 'term': {'k': 'goto', 'target': boff, 'inl_call': cp, 'span': span}, 'inl': stack, 'cleanup': False})
             # what the closure returned becomes the result
@@ -733,7 +762,15 @@ def desugar_effect_closures(fns_by_path, max_rewrites=40):
                 fin_rv = {'k': 'aggregate', 'adt': 'core::result::Result', 'variant': 'Err', 'fields': [], 'ops': [r_op]}
             else:
                 fin_rv = agg(wrap, [r_op])
-            j['blocks'].append({'i': b_fin, 'stmts': [{'k': 'assign', 'place': dest, 'rv': fin_rv, 'span': span, 'inl_ret': cp}], 'term': {'k': 'goto', 'target': t['target']}, 'inl': stack, 'cleanup': False})
+            if wrap == 'filter':
+                # Some(x) stays when the predicate answered true, otherwise the result is None
+                keepl = newlocal('bool')
+                j['blocks'].append({'i': b_fin, 'stmts': [{'k': 'assign', 'place': pl(keepl), 'rv': {'k': 'use', 'op': r_op}, 'span': span, 'inl_ret': cp}],
+                                    'term': {'k': 'switch', 'op': {'k': 'move', 'place': pl(keepl)}, 'ty': 'bool', 'targets': [[0, b_fin + 2]], 'otherwise': b_fin + 1, 'span': span}, 'inl': stack, 'cleanup': False})
+                j['blocks'].append({'i': b_fin + 1, 'stmts': [{'k': 'assign', 'place': dest, 'rv': {'k': 'use', 'op': {'k': 'move', 'place': pl(ol)}}, 'span': span}], 'term': {'k': 'goto', 'target': t['target']}, 'inl': stack, 'cleanup': False})
+                j['blocks'].append({'i': b_fin + 2, 'stmts': [{'k': 'assign', 'place': dest, 'rv': agg('None', []), 'span': span}], 'term': {'k': 'goto', 'target': t['target']}, 'inl': stack, 'cleanup': False})
+            else:
+                j['blocks'].append({'i': b_fin, 'stmts': [{'k': 'assign', 'place': dest, 'rv': fin_rv, 'span': span, 'inl_ret': cp}], 'term': {'k': 'goto', 'target': t['target']}, 'inl': stack, 'cleanup': False})
             for pr in cj.get('promoted') or []:
                 pr2 = copy.deepcopy(pr)
                 pr2['i'] = pr['i'] + poff
@@ -846,6 +883,7 @@ class Facts:
                     byp.setdefault(fj['path'], fj)
                 done = inline_new_helpers(byp, set(pinned[crate]))
                 done3 = inline_direct_closure_calls(byp)
+                devirtualize_fn_pointers(byp)
                 done2 = desugar_effect_closures(byp)
                 for k_, v_ in done3.items():
                     done.setdefault(k_, []).extend(v_)
@@ -1103,6 +1141,8 @@ class AbsInt:
                     val = env[key]
                 elif val[0] == 'agg' and e['field'] < len(val[3]):
                     val = val[3][e['field']]
+                elif val[0] == 'closure' and len(val) > 2 and isinstance(val[2], tuple) and e['field'] < len(val[2]):
+                    val = val[2][e['field']]          # a captured variable of a closure value built on this path
                 else:
                     val = ('field', val, e['name'])
             elif isinstance(e, dict) and 'downcast' in e:
